@@ -75,7 +75,7 @@ def interesting(cli_args: List[str], temp_prefix: str) -> bool:
     for i in range(1, loop_num + 1):
         # This doesn't do anything if REPEATNUM is not found.
         replaced_condition_args = [
-            s.replace("REPEATNUM", str(i)) for s in condition_args
+            s.replace(args.repeat_num, str(i)) for s in condition_args
         ]
         log.info("Repeat number %d:", i)
         if cast(Any, condition_script).interesting(
